@@ -196,19 +196,39 @@ def _inline_seq_locals(fn, e):
 
 
 def _accept_predicate(fn, cfg, targets, symf, relevant):
-    """OR over paths to ``targets`` of the AND of the relevant atoms with their polarity."""
+    """OR over paths to ``targets`` of the AND of the relevant atoms with their polarity.  Boolean locals assigned on
+    the way (`in_mask = lo <= az <= hi` ... `if in_mask:`) are replaced by the expression they hold on that path."""
+    import copy
+
     disj = []
     for tg in targets:
-        for conj in cfg.path_conditions(tg):
+        for path in cfg.paths(targets=[tg], max_visits=1, limit=5000):
+            env = {}
+
+            class S(ast.NodeTransformer):
+                def visit_Name(self, n):
+                    return copy.deepcopy(env[n.id]) if isinstance(n.ctx, ast.Load) and n.id in env else n
+
             parts = []
-            for node, lab in conj:
-                if node.kind != "cond":
-                    continue
-                tst = _inline_seq_locals(fn, node.ast)
-                if not relevant(tst):
-                    continue
-                a = O.from_ast(tst, symf)
-                parts.append(a if lab else O.Not(a))
+            for nid, lab in path:
+                node = cfg.nodes[nid]
+                st = node.ast
+                if node.kind == "stmt" and isinstance(st, ast.Assign) and len(st.targets) == 1 and isinstance(st.targets[0], ast.Name) and isinstance(st.value, (ast.Compare, ast.BoolOp, ast.UnaryOp, ast.Constant, ast.Name)):
+                    if isinstance(st.value, ast.Constant) and not isinstance(st.value.value, bool):
+                        env.pop(st.targets[0].id, None)
+                    else:
+                        env[st.targets[0].id] = S().visit(copy.deepcopy(st.value))
+                elif node.kind == "stmt" and isinstance(st, (ast.Assign, ast.AugAssign)):
+                    for tgt in st.targets if isinstance(st, ast.Assign) else [st.target]:
+                        for x in ast.walk(tgt):
+                            if isinstance(x, ast.Name):
+                                env.pop(x.id, None)
+                elif node.kind == "cond" and st is not None:
+                    tst = _inline_seq_locals(fn, S().visit(copy.deepcopy(st)))
+                    if not relevant(tst):
+                        continue
+                    a = O.from_ast(tst, symf)
+                    parts.append(a if lab else O.Not(a))
             disj.append(O.And(*parts))
     return O.Or(*disj)
 
